@@ -9,6 +9,8 @@ Nothing in this file imports the code under test.  A flow case is JSON:
 All functions below are pure functions of that data.
 """
 
+import os
+
 from .. import gen, ref
 
 ROLES = ("cache", "remote")
@@ -120,7 +122,8 @@ class Model:
                 continue
             if r["cache"] is None:
                 return "a prefix has a remote but no cache"
-            if cacheof.setdefault(r["remote"], r["cache"]) != r["cache"]:
+            if cacheof.setdefault(r["remote"], r["cache"]) != r["cache"] and not os.environ.get("VERIF_C18_WIDE"):
+                # VERIF_C18_WIDE=1 lifts this restriction (diagnostic only: see ASSUMPTIONS of c18.py)
                 return "one remote store paired with two caches"
         return None
 
